@@ -371,3 +371,27 @@ theorem Sys.backend_equivalence (data : Bytes) (hd : data.length < W64) (h : Lis
   exact ⟨congrArg Prod.fst e1, congrArg Prod.snd e1⟩
 
 end Op2.Stream
+
+namespace Op2.Stream
+
+/-- what the correspondence run prints of an object after every step — `Position()` and `Length()` as the backend computes them
+    (u64 arithmetic on the wrapped cursor for slices) — are the relative cursor and the size of what the object exposes -/
+theorem Rd.observables (r : Rd) (hr : r.Good) : r.pos = r.abs.pos ∧ r.len = r.abs.data.length ∧ r.pos ≤ r.len := by
+  cases r with
+  | mem m => exact ⟨rfl, rfl, hr.1⟩
+  | file f => exact ⟨rfl, rfl, hr.1⟩
+  | fsl s =>
+    have hp := slice_position_eq fileWrappedOK s hr
+    have hl := sliceAbs_len (ab := id) s hr.2.1
+    obtain ⟨_, g1, g2, g3⟩ := hr
+    simp only [id] at g1 g2 g3 hp
+    refine ⟨hp, hl.symm, ?_⟩
+    simp only [Rd.pos, Rd.len, hp]; omega
+  | fss s =>
+    have hp := slice_position_eq (sliceWrappedOK fileWrappedOK) s hr
+    have hl := sliceAbs_len (ab := sliceAbs id) s hr.2.1
+    obtain ⟨_, g1, g2, g3⟩ := hr
+    refine ⟨hp, hl.symm, ?_⟩
+    simp only [Rd.pos, Rd.len, fslW, hp]; omega
+
+end Op2.Stream
